@@ -303,6 +303,7 @@ def run(tier):
                 rp = common.save_replay(PROP, os.path.join('%s-%s' % (mode, variant), 'crash-' + common.sha(open(path, 'rb').read())), open(path, 'rb').read()) \
                     if not path.startswith(common.SEEDS) else path
                 common.violation(PROP, rp, '%s variant=%s mode=%s' % (sig, variant, mode))
+                print(fuzz.detail(binary(variant), rp, _env(mode)))
         seen.add(sig)
     ev.write()
     shutil.rmtree(work, ignore_errors=True)
